@@ -319,8 +319,9 @@ def gen_text_cases(ck, cfg):
             if m.bit_length() > 300 and radix not in (10, 16):
                 continue
             body = pfx + to_base(m, radix)
-            for s in signs:
-                for ld in leads:
+            long = m.bit_length() > 300      # TLC folds every digit: keep the long numerals few
+            for s in (signs[:2] if long else signs):
+                for ld in (leads[:1] if long else leads):
                     texts.add((ld + s + body + rng.choice(tails), base))
     for t in ["", " ", "  \t", "-", "+", "0x", "0xg", "0x ", "08", "09", "- 1", "+-1", "--1", "1 2", "0b101", "1e5", "१", "\xb2",
               "0x-1", "-0x1", "-0", "+0", "00", "0000000000000000000000000000000000000001", "-00000000000000000000000000000009",
